@@ -108,6 +108,7 @@ pub fn key_check(w: &mut World, node: usize, slot: usize) {
 
     let raw = get!(be.key_raw(kind, &h), "expose");
     let text = get!(be.key_text(kind, &h), "expose-text");
+    w.log.update_str(&format!("keycheck {} {} {}", bk.name(), kind.name(), if bk.family() == 1 { text.len().to_string() } else { text.clone() }));
     // text round trip
     let again = get!(be.key_parse(kind, &text), "reparse-own-text");
     let raw2 = get!(be.key_raw(kind, &again), "expose");
